@@ -154,7 +154,7 @@ func genC06(seed uint64, run int, tier string) *Plan {
 		return d
 	}
 	tp := TaskPlan{Name: "client"}
-	n := 3 + r.IntN(14)
+	n := deepen(tier, seed, 3+r.IntN(14))
 	for i := 0; i < n; i++ {
 		db, c := pick(r, dbs...), pick(r, colls...)
 		var op Op
